@@ -2,7 +2,7 @@
 From Tx Require Import Lib.Base Model.PyVal Model.Validators Model.Marshal Model.Message Model.Framing
   Model.FdFraming
   Spec.WireSpec Spec.Readback Spec.WireTyped Spec.Conforms Spec.MsgSpec Spec.FramingSpec Spec.FdSpec
-  Proofs.FdProofs.
+  Proofs.FdProofs Proofs.FdStartProofs.
 Local Open Scope N_scope.
 
 (* ------------------------------------------------------------------------ *)
@@ -150,4 +150,42 @@ Proof.
   - let s := eval vm_compute in (smsg_fd ex_send true 5 3) in
     change (sent_ok (mkSent s ex_send_fds)). unfold ex_send_fds. prove_sent_ok.
   - vm_compute. reflexivity.
+Qed.
+
+(* ---- from the start of the connection -------------------------------------------------- *)
+From Tx Require Import Proofs.FramingProofs.
+
+(* server side: NUL, "AUTH X", "GO" (accepted), then B (three descriptors) and D (one) *)
+Definition ex_hs : bytes := hs_bytes false [AUTHX; GO].
+Definition ex_stream2 : bytes := ex_hs ++ wire ex_B ++ wire ex_D.
+
+(* 10 and 11 arrive while the handshake is still incomplete, 12 just before the
+   read that carries "GO\r\n" together with the first 30 bytes of B *)
+Definition ex_ins2 : list input :=
+  [Read (firstn 5 ex_stream2); Fd (PInt 10); Fd (PInt 11); Fd (PInt 12);
+   Read (firstn 38 (skipn 5 ex_stream2)); Fd (PInt 13); Read (skipn 43 ex_stream2)].
+
+Lemma ex_start :
+  Forall (good_line 16384) [AUTHX; GO] /\ auth_accepts (astep_rules go_rules) tt [AUTHX; GO] = true /\
+  Forall sent_ok [ex_B; ex_D] /\ Forall (fun x => (msg_depth (sn_msg x) <= 8)%nat) [ex_B; ex_D] /\
+  stream_order_hs ex_hs [ex_B; ex_D] ex_ins2 /\ first_read_nonempty (reads ex_ins2) /\
+  (* after the read that completes the handshake: authenticated, nothing delivered, 10 11 12 queued *)
+  run_start (astep_rules go_rules) 16384 false 8 false tt (firstn 5 ex_ins2)
+    = ([Other (Line AUTHX); Other (Line GO); Other AuthOk], [PInt 10; PInt 11; PInt 12],
+       Some (firstn 30 (wire ex_B))) /\
+  (* at the end both messages delivered with their own descriptors *)
+  (exists p1 p2,
+     run_start (astep_rules go_rules) 16384 false 8 false tt ex_ins2
+       = ([Other (Line AUTHX); Other (Line GO); Other AuthOk; Deliver p1; Deliver p2], [], Some []) /\
+     snd (view p1) = Some [PList [PInt 11; PStr [120]]; PList [PInt 10; PInt 12]] /\
+     snd (view p2) = Some [PInt 13]).
+Proof.
+  split; [exact (proj1 ex_lines_good)|]. split; [exact (proj2 ex_lines_good)|].
+  split; [exact (Forall_cons _ ex_B_ok (Forall_cons _ ex_D_ok (Forall_nil _)))|].
+  split; [apply Forall_forall; intros x [<-|[<-|[]]]; vm_compute; lia|].
+  split; [apply stream_order_hs_b_sound; vm_compute; reflexivity|].
+  split; [vm_compute; discriminate|].
+  split; [vm_compute; reflexivity|].
+  destruct (run_start (astep_rules go_rules) 16384 false 8 false tt ex_ins2) as [[o q] r] eqn:E.
+  vm_compute in E. injection E as <- <- <-. eexists _, _. split; [reflexivity|]. split; reflexivity.
 Qed.
